@@ -612,7 +612,7 @@ func unfolded(t *cells.Table) int {
 func Drive(w *ev.Writer, o Opts) {
 	rng := rand.New(rand.NewSource(o.Seed*2654435761 + int64(o.Shard)*97 + 18))
 	thorough := o.Tier == "thorough"
-	ndict, nwalk, maxN := 10, 30, 60
+	ndict, nwalk, maxN := 10, 16, 60
 	if thorough {
 		ndict, nwalk, maxN = 60, 260, 500
 	}
